@@ -1,4 +1,5 @@
 import EupsModel.Lemmas.Remove
+import EupsModel.Lemmas.DepsTotal
 /-! C14 — remove deletes exactly what was asked and never something still needed.
 Property theorems only (model: `Model/Remove.lean`, lemmas: `Lemmas/Remove.lean`). -/
 namespace EupsModel.C14
@@ -99,6 +100,57 @@ theorem C14_never_still_needed (sb : SetupBy) (s' : State) (R : List Prod)
     simp only [inUse, usedBy, Bool.not_eq_false', List.isEmpty_iff, List.filter_eq_nil_iff] at this
     have := this u hu
     simpa using this
+
+/-- On success the requested product itself is among the removed ones (unless it is the default product). -/
+theorem C14_requested_is_removed (s' : State) (R : List Prod)
+    (h : removeWith s uses name ver recursive check force dn = (Remove.Outcome.ok, s', R))
+    (hd : dn ≠ some name) : ⟨name, some ver, true⟩ ∈ R := by
+  have key : ∀ sb, (match collect s.db sb force dn (name, ver) s.removeFuel name (some ver) recursive with
+      | .error e => (Remove.Outcome.failed e, s, ([] : List Prod))
+      | .ok l => (Remove.Outcome.ok, destroy s (uniqProds l), uniqProds l)) = (Remove.Outcome.ok, s', R) →
+      ⟨name, some ver, true⟩ ∈ R := by
+    intro sb hk
+    split at hk
+    · simp at hk
+    · rename_i l hl
+      simp only [Prod.mk.injEq] at hk; obtain ⟨_, _, h3⟩ := hk; subst h3
+      obtain ⟨p, hp, hpl⟩ := collect_contains_self _ _ _ _ _ _ _ _ _ _ hl hd
+      have : p = ⟨name, some ver, true⟩ := by
+        simp only [Db.find] at hp
+        split at hp <;> simp_all
+      subst this
+      exact (mem_uniqProds l _).mpr hpl
+  unfold removeWith at h
+  cases check with
+  | false => simp only [Bool.false_eq_true, if_false] at h; exact key _ h
+  | true =>
+    simp only [if_true] at h
+    split at h
+    · simp at h
+    · simp at h
+    · exact key _ h
+
+/-- **Never something still needed, in terms of the listings.**  With the in-use check on and force off, after a
+successful `remove` the only declared product whose dependency listing holds a removed product is the
+requested product itself (which is removed too): no product that remains declared needs a removed one. -/
+theorem C14_never_still_needed_listing (s' : State) (R : List Prod)
+    (h : remove s name ver recursive true false dn = (Remove.Outcome.ok, s', R))
+    (p : Prod) (hp : p ∈ R) (d : Decl) (hd : d ∈ s.decls) (l : List Entry)
+    (hl : getDependentProducts s.db s.db.fuel ⟨d.name, some d.ver, true⟩ true false = .ok l)
+    (e : Entry) (he : e ∈ l) (hn : e.prod.name = p.name) (hv : e.prod.ver = p.ver) :
+    d.name = name ∧ d.ver = ver := by
+  unfold remove at h
+  cases hu : usesInfo s.db s.db.fuel with
+  | outOfFuel => simp [removeWith, hu] at h
+  | cycle => simp [removeWith, hu] at h
+  | ok sb =>
+    rw [hu] at h
+    have hex : ∃ u ∈ users sb p.name p.ver, u.name = d.name ∧ u.ver = d.ver ∧ u.need = p.ver :=
+      (uses_inverse s.db s.db.fuel sb hu p.name p.ver d.name d.ver p.ver).mpr
+        ⟨Or.inr rfl, d, hd, rfl, rfl, l, hl, e, he, hn, hv⟩
+    obtain ⟨u, hu', h1, h2, _⟩ := hex
+    have := C14_never_still_needed s name ver recursive dn sb s' R h p hp u hu'
+    rw [← h1, ← h2]; exact this
 
 /-- `--noCheck`: the command never refuses. -/
 theorem C14_noCheck : (removeWith s uses name ver recursive false force dn).1 ≠ .failed .refused := by
